@@ -16,12 +16,12 @@ package codecs
 
 import (
 	"encoding/binary"
+	"errors"
 	"fmt"
 	"io"
 	"io/ioutil"
 
 	"github.com/datastax/go-cassandra-native-protocol/compression/lz4"
-	lz4block "github.com/pierrec/lz4/v4"
 )
 
 // maxLz4Ratio is (more than) the best compression ratio an LZ4 block can have. It bounds the buffer allocated for a
@@ -30,7 +30,8 @@ const maxLz4Ratio = 256
 
 // lz4Compressor is the protocol library's LZ4 compressor, but it decompresses into a buffer of the length given by the
 // frame body's length prefix. The library guesses the length instead (at most eight times the compressed length) and
-// fails for anything that compresses better than that.
+// fails for anything that compresses better than that. It also decodes the block itself: the block decoder of the LZ4
+// module version in use rejects some valid blocks (e.g. incompressible data followed by a short repeating pattern).
 type lz4Compressor struct {
 	lz4.Compressor
 }
@@ -51,7 +52,7 @@ func (c lz4Compressor) DecompressWithLength(source io.Reader, dest io.Writer) er
 		return fmt.Errorf("invalid decompressed length %d for %d compressed bytes", decompressedLength, len(compressed))
 	}
 	decompressed := make([]byte, decompressedLength)
-	written, err := lz4block.UncompressBlock(compressed, decompressed)
+	written, err := decodeLz4Block(compressed, decompressed)
 	if err != nil {
 		return fmt.Errorf("cannot decompress message: %w", err)
 	}
@@ -59,4 +60,80 @@ func (c lz4Compressor) DecompressWithLength(source io.Reader, dest io.Writer) er
 		return fmt.Errorf("cannot write decompressed message: %w", err)
 	}
 	return nil
+}
+
+var errLz4InvalidBlock = errors.New("lz4: invalid block")
+var errLz4ShortBuffer = errors.New("lz4: decompressed data is longer than announced")
+
+// decodeLz4Block decodes an LZ4 block into dst and returns the number of bytes written. It never reads outside src or
+// writes outside dst.
+func decodeLz4Block(src, dst []byte) (int, error) {
+	si, di := 0, 0
+	for si < len(src) {
+		token := src[si]
+		si++
+		// Literals
+		length := int(token >> 4)
+		if length == 15 {
+			for {
+				if si >= len(src) {
+					return 0, errLz4InvalidBlock
+				}
+				b := src[si]
+				si++
+				length += int(b)
+				if b != 255 {
+					break
+				}
+			}
+		}
+		if length > len(src)-si {
+			return 0, errLz4InvalidBlock
+		}
+		if length > len(dst)-di {
+			return 0, errLz4ShortBuffer
+		}
+		copy(dst[di:], src[si:si+length])
+		si += length
+		di += length
+		if si == len(src) { // The last sequence only has literals
+			return di, nil
+		}
+		// Match
+		if len(src)-si < 2 {
+			return 0, errLz4InvalidBlock
+		}
+		offset := int(src[si]) | int(src[si+1])<<8
+		si += 2
+		if offset == 0 || offset > di {
+			return 0, errLz4InvalidBlock
+		}
+		length = int(token & 15)
+		if length == 15 {
+			for {
+				if si >= len(src) {
+					return 0, errLz4InvalidBlock
+				}
+				b := src[si]
+				si++
+				length += int(b)
+				if b != 255 {
+					break
+				}
+			}
+		}
+		length += 4
+		if length > len(dst)-di {
+			return 0, errLz4ShortBuffer
+		}
+		if offset >= length {
+			copy(dst[di:di+length], dst[di-offset:])
+			di += length
+		} else { // Overlapping match: the copied bytes are part of the source of the copy
+			for end := di + length; di < end; di++ {
+				dst[di] = dst[di-offset]
+			}
+		}
+	}
+	return di, nil
 }
